@@ -470,8 +470,12 @@ def pinSweep (pin lo hi step : Nat) (ss cs : Bytes) : M String := do
 
 def runOp (be : Backend) (args : List String) : M String := do
   match args with
-  | ["ns.new", s] => pure (opNsNew s)
-  | ["ns.cmp", a, b] => pure (opNsCmp a b)
+  | ["ns.new", s] => do
+    let r := opNsNew s
+    if r == "badutf8" then throw r else pure r      -- not a Rust `str` at all: the harness reports it the same way
+  | ["ns.cmp", a, b] => do
+    let r := opNsCmp a b
+    if r == "badutf8" then throw r else pure r
   | ["ns.sweep", lo, hi, pos, len] => pure (nsSweep (nat! lo) (nat! hi) (nat! pos) (nat! len))
   | ["pk.from", k] =>
     match PublicKey.fromLE (unhex k) with
@@ -546,7 +550,7 @@ def runOp (be : Backend) (args : List String) : M String := do
         | .panic _ => throw "panic"
       | .fail st => pure s!"fail {st}"
       | .panic _ => throw "panic"
-    | _, _, _, _ => pure "badutf8"
+    | _, _, _, _ => throw "badutf8"
   | "recon" :: u :: p :: k :: rest => do
     let (srv, _) ← fullLogin be u p
     let mut s := srv
